@@ -16,7 +16,7 @@ R3.8 impl EvalexprInt for i64: checked_X is i64::checked_X(self, rhs) and None b
      (self, rhs) in order; no wrapping/overflowing/unchecked operation, no raw arithmetic.
 Not decided: the numbers themselves (i64::checked_*, IEEE-754 operations and float formatting are trusted std)."""
 import tables
-from absint import Interp, SYM, C, ADT, OK, ERR, SOME, NONE, fmt, is_adt, Budget
+from absint import Interp, SYM, C, ADT, OK, ERR, SOME, NONE, fmt, is_adt, Budget, P_OK, P_ERR, P_SOME, expand_results
 from mirlib import short, path_endswith
 from rules.witness import compile_witness
 from rules.treepaths import branches_of
@@ -97,8 +97,9 @@ def run(ctx):
                 if k in ARITH:
                     chk, flt = ARITH[k]
                     if A == 'Int' and B == 'Int':
-                        want = ('app', 'std::result::Result::<T, E>::map', (('app', INT_TRAIT + chk, (SYM('a'), SYM('b'))), ('fn', 'value::Value::Int')))
-                        ctx.check(rets == [want], 'R3.2', inst, 'int-path', 'two integers: exactly EvalexprInt::%s(a, b), result wrapped as Int (found %s)' % (chk, got), span=f.span)
+                        core = ('app', INT_TRAIT + chk, (SYM('a'), SYM('b')))
+                        want = [OK(V2(val, 'Int', P_OK(core))), ERR(P_ERR(core))]
+                        ctx.check(sorted(map(fmt, expand_results(rets))) == sorted(map(fmt, want)), 'R3.2', inst, 'int-path', 'two integers: exactly EvalexprInt::%s(a, b), result wrapped as Int (found %s)' % (chk, got), span=f.span)
                     elif A in NUM and B in NUM:
                         want = OK(V2(val, 'Float', ('app', flt, (F(A, 'a'), F(B, 'b')))))
                         ctx.check(rets == [want], 'R3.3', inst, 'float-path', 'mixed numbers: both converted to float, combined with %s(a, b), result Float (found %s)' % (flt.split('::')[-1], got), span=f.span)
@@ -165,8 +166,9 @@ def run(ctx):
             got = [fmt(r)[:160] for r in rets]
             if k == 'Neg':
                 if A == 'Int':
-                    want = ('app', 'std::result::Result::<T, E>::map', (('app', INT_TRAIT + 'checked_neg', (SYM('a'),)), ('fn', 'value::Value::Int')))
-                    ctx.check(rets == [want], 'R3.2', inst, 'int-path', 'integer negation goes through checked_neg (found %s)' % got, span=f.span)
+                    core = ('app', INT_TRAIT + 'checked_neg', (SYM('a'),))
+                    want = [OK(V2(val, 'Int', P_OK(core))), ERR(P_ERR(core))]
+                    ctx.check(sorted(map(fmt, expand_results(rets))) == sorted(map(fmt, want)), 'R3.2', inst, 'int-path', 'integer negation goes through checked_neg (found %s)' % got, span=f.span)
                 elif A == 'Float':
                     want = OK(V2(val, 'Float', ('app', 'std::ops::Neg::neg', (SYM('a'),))))
                     ctx.check(rets == [want], 'R3.3', inst, 'float-path', 'float negation (found %s)' % got, span=f.span)
